@@ -25,13 +25,13 @@ func verifInnerDesc(mask int) *thrift.TypeDescriptor {
 
 // verifOuterDesc builds S{1: i32 a, 2: string b, 3: Inner c [, 4: i32 d (requiredness req)]} restricted by mask
 // (bit0 a, bit1 b, bit2 c, bit3 d); inner is the descriptor used for c.
-func verifOuterDesc(mask int, inner *thrift.TypeDescriptor, req int) *thrift.TypeDescriptor {
+func verifOuterDesc(mask int, inner *thrift.TypeDescriptor, req int, abreq int) *thrift.TypeDescriptor {
 	var fs []thrift.VField
 	if mask&1 != 0 {
-		fs = append(fs, thrift.VField{ID: 1, Name: "a", Type: thrift.VerifBasic(thrift.I32), Req: 2})
+		fs = append(fs, thrift.VField{ID: 1, Name: "a", Type: thrift.VerifBasic(thrift.I32), Req: abreq})
 	}
 	if mask&2 != 0 {
-		fs = append(fs, thrift.VField{ID: 2, Name: "b", Type: thrift.VerifBasic(thrift.STRING), Req: 2})
+		fs = append(fs, thrift.VField{ID: 2, Name: "b", Type: thrift.VerifBasic(thrift.STRING), Req: abreq})
 	}
 	if mask&4 != 0 {
 		fs = append(fs, thrift.VField{ID: 3, Name: "c", Type: inner, Req: 2})
@@ -73,14 +73,18 @@ func VerifC11_Struct() {
 	}
 	opts := &Options{DisallowUnknow: vrt.Bool(), NotCheckRequireNess: vrt.Bool(), WriteDefault: vrt.Bool()}
 	srcInner := verifInnerDesc(3)
-	src := verifOuterDesc(7, srcInner, 0)
+	src := verifOuterDesc(7, srcInner, 0, 2)
+	abreq := 2 // AREQ=1: the target declares a and b with default requiredness (zero-filled under WriteDefault)
+	if vrt.Param("AREQ") != 0 {
+		abreq = 0
+	}
 	var dstInner *thrift.TypeDescriptor
 	if imask == 3 && vrt.Param("SHARE") != 0 {
 		dstInner = srcInner // pointer-shared sub-descriptor
 	} else {
 		dstInner = verifInnerDesc(imask)
 	}
-	dst := verifOuterDesc(tmask, dstInner, req)
+	dst := verifOuterDesc(tmask, dstInner, req, abreq)
 	identical := false
 	if vrt.Param("SAME") != 0 {
 		dst = src
@@ -89,14 +93,15 @@ func VerifC11_Struct() {
 	}
 
 	var full, proj []byte
-	if vrt.Bool() {
+	hasA, hasB := vrt.Bool(), vrt.Bool()
+	if hasA {
 		a := int(int32(vrt.U32()))
 		full = vrt.PutBE32(vrt.PutField(full, vrt.TI32, 1), a)
 		if tmask&1 != 0 {
 			proj = vrt.PutBE32(vrt.PutField(proj, vrt.TI32, 1), a)
 		}
 	}
-	if vrt.Bool() {
+	if hasB {
 		s := vrt.Bytes(1)
 		full = vrt.PutString(vrt.PutField(full, vrt.TSTRING, 2), s)
 		if tmask&2 != 0 {
@@ -145,6 +150,15 @@ func VerifC11_Struct() {
 	vrt.Assert(err == nil, "C11.thrift.noerror")
 	if err != nil {
 		return
+	}
+	if abreq == 0 && !identical && opts.WriteDefault && !opts.NotCheckRequireNess {
+		// unset default-requiredness target fields are zero-filled after the copied fields, in id order
+		if tmask&1 != 0 && !hasA {
+			proj = vrt.PutBE32(vrt.PutField(proj, vrt.TI32, 1), 0)
+		}
+		if tmask&2 != 0 && !hasB {
+			proj = vrt.PutString(vrt.PutField(proj, vrt.TSTRING, 2), nil)
+		}
 	}
 	if extra && req == 0 && opts.WriteDefault && !opts.NotCheckRequireNess {
 		vrt.Reach("zero-filled")
